@@ -82,6 +82,7 @@ func window(t *sim.Tape, body []byte) (win, whole []byte) {
 }
 
 type poolEntry struct {
+	frame []byte // the frame it was decoded from (own copy), nil when constructed
 	p     mq.Packet
 	canon string
 	deep  uint64
@@ -202,7 +203,7 @@ func runC14(c *sim.Ctx) *sim.Violation {
 	addDecoded := func(via string) *sim.Violation {
 		frame := newFrame()
 		first, body, _, _ := ref.SplitFrame(frame)
-		e := &poolEntry{how: via + " " + typeName(first>>4)}
+		e := &poolEntry{how: via + " " + typeName(first>>4), frame: append([]byte{}, frame...)}
 		if via == "ReadPacket" {
 			stream := append([]byte{}, frame...)
 			r := link.NewReader(c, stream, link.Mode{Chunk: t.Bool(1, 2), Scribble: true})
@@ -368,6 +369,32 @@ func runC14(c *sim.Ctx) *sim.Violation {
 				}
 			}
 		case 0:
+			if j := t.Int(len(pool)); pool[j].frame != nil && t.Bool(1, 3) {
+				// the SAME frame arrives once more - as it is, or (a PUBLISH with QoS > 0)
+				// as a retransmission with DUP set: a new, independent packet
+				// (both decodes back to back: what a decoder remembers about "the last
+				// packet" is still the first of the two when the second arrives)
+				f1 := append([]byte{}, pool[j].frame...)
+				f2 := append([]byte{}, f1...)
+				if f2[0]>>4 == ref.Publish && f2[0]&0x06 != 0 {
+					f1[0] &^= 0x08
+					f2[0] |= 0x08
+				}
+				o1 := ReadOne(link.NewReader(c, f1, link.Mode{}))
+				o2 := ReadOne(link.NewReader(c, f2, link.Mode{}))
+				for k, o := range []Outcome{o1, o2} {
+					if o.Kind == "packet" {
+						fr := [][]byte{f1, f2}[k]
+						e := &poolEntry{p: o.P, how: fmt.Sprintf("the frame of #%d decoded again (first byte 0x%02x)", j, fr[0]), frame: fr}
+						e.canon, e.deep = snapshot(e.p)
+						pool = append(pool, e)
+						c.Count("probe.same-frame-decoded-again")
+					}
+				}
+				touched = len(pool) // nobody existing
+				what = "decode-again"
+				break
+			}
 			if v := addDecoded([]string{"ReadPacket", "UnmarshalBinary"}[t.Int(2)]); v != nil {
 				return v
 			}
